@@ -10,7 +10,7 @@ from __future__ import annotations
 import ast
 
 from .. import srcmodel as S
-from ..core import AnalysisError
+from ..core import AnalysisError, norm
 from . import wiring_common as WCm
 
 LEVEL = "other"
@@ -51,6 +51,7 @@ def check_table(ctx, table, spelling_of, rule, where, what):
 def check(ctx):
     ctx.rule("R-C02.1", "the weak order induced by _BINARY_PRECEDENCE equals C99's ten binary-operator levels")
     ctx.rule("R-C02.2", "precedence climbing: exit on strictly lower precedence, recurse only for strictly tighter operators with (next_prec, rhs), operands at cast level")
+    ctx.rule("R-C02.4", "adjacent string literals: the accumulated spelling loses exactly its closing quote and every following piece exactly its prefix and opening quote (prefix lengths from the lexer's token languages)")
     ctx.rule("R-C02.3", "every expression production wires operators, operands (parsed at the right grammar level, in source order), names and spellings into its node as the reviewed reference says")
     t = S.tables()
     px = S.module("c_parser")
@@ -111,6 +112,8 @@ def check(ctx):
         raise AnalysisError("precedence-climbing schema not recognised in _parse_binary_expression (exit test or recursion test missing)")
     ctx.require_instances("R-C02.2", 3)
 
+    # ---- R-C02.4 -------------------------------------------------------------------
+    _check_concat(ctx, px)
     # ---- R-C02.3 -------------------------------------------------------------------
     n = WCm.run_group(ctx, "R-C02.3", WCm.EXPR, lambda label, field: not WCm.is_coord_field(label, field) and not label.startswith("call:_parse_error"),
                       "expression tree wiring deviates from C's grammar", returns=True, appends=True)
@@ -121,6 +124,103 @@ def check(ctx):
                                "(operand provenance = producing call site of the production of the right level, token provenance = set of token types the call site can consume)")
     ctx.assumptions += ["equality of run-time trees with independently computed trees is not executed", "the reviewed reference wiring (sa/wiring_ref.json) is a correct reading of C99 6.5; it was reviewed record by record (DESIGN.md Appendix B)"]
     ctx.trusted += ["E1 grammar model (token-type sets of call sites)", "sa/wiring_ref.json"]
+
+
+def _prefix_lengths(lm, rule):
+    """set of possible numbers of characters before the first '"' in the token language of a lexer rule (from its regex automaton)"""
+    from .. import rxmodel as R
+    node = next(nd for nme, nd, _ in lm.rules if nme == rule)
+    d = R.language_dfa(lm.alpha, node)
+    quote = lm.alpha.of_char('"')
+    # states from which an accepting state is reachable
+    rev = {}
+    for (q, a), q2 in d.trans.items():
+        rev.setdefault(q2, set()).add(q)
+    live, todo = set(d.accepting), list(d.accepting)
+    while todo:
+        x = todo.pop()
+        for y in rev.get(x, ()):
+            if y not in live:
+                live.add(y)
+                todo.append(y)
+    out, frontier = set(), {d.start}
+    for depth in range(0, 6):
+        nxt = set()
+        for q in frontier:
+            for a in range(d.n_syms):
+                q2 = d.step(q, a)
+                if q2 is None or q2 not in live:
+                    continue
+                if a == quote:
+                    out.add(depth)
+                else:
+                    nxt.add(q2)
+        frontier = nxt
+        if not frontier:
+            break
+    if frontier:
+        raise AnalysisError(f"token language {rule}: unbounded text before the opening quote")
+    return out
+
+
+def _check_concat(ctx, px):
+    from .. import e1
+    from .. import lexmodel as LM
+    lm = LM.LexModel()
+    toksites = e1.token_sites()
+    found = 0
+    for m in ("_parse_unified_string_literal", "_parse_unified_wstring_literal"):
+        fn = px.method("CParser", m)
+        for lp in [n for n in ast.walk(fn) if isinstance(n, ast.While)]:
+            for st in lp.body:
+                if not (isinstance(st, ast.Assign) and isinstance(st.targets[0], ast.Attribute) and st.targets[0].attr == "value"):
+                    continue
+                found += 1
+                acc = S.unparse(st.targets[0])
+                v = st.value
+                okA = okB = False
+                whyA = whyB = "not the idiom <accumulated>[:-1] + <piece>[k:]"
+                if isinstance(v, ast.BinOp) and isinstance(v.op, ast.Add):
+                    A, B = v.left, v.right
+                    # A: acc[:-1], optionally through .rstrip() without arguments (token spellings never end in white space)
+                    if isinstance(A, ast.Subscript) and isinstance(A.slice, ast.Slice) and A.slice.lower is None and S.unparse(A.slice.upper) == "-1" and A.slice.step is None:
+                        base = A.value
+                        if isinstance(base, ast.Call) and isinstance(base.func, ast.Attribute) and base.func.attr == "rstrip" and not base.args and not base.keywords:
+                            base = base.func.value
+                        okA = S.unparse(base) == acc
+                        whyA = "drops exactly the closing quote" if okA else f"`{S.unparse(A)}` is not {acc}[:-1]"
+                    else:
+                        whyA = f"`{S.unparse(A)}` does not drop exactly one trailing character"
+                    # B: piece.value[k:]  with k = prefix length + 1 for every token type the piece can have, or piece.value[piece.value.index('"') + 1:]
+                    if isinstance(B, ast.Subscript) and isinstance(B.slice, ast.Slice) and B.slice.upper is None and B.slice.step is None and isinstance(B.value, ast.Attribute) and B.value.attr == "value" and isinstance(B.value.value, ast.Name):
+                        piece = B.value.value.id
+                        lo = B.slice.lower
+                        defs = [a_ for a_ in ast.walk(lp) if isinstance(a_, ast.Assign) and isinstance(a_.targets[0], ast.Name) and a_.targets[0].id == piece and isinstance(a_.value, ast.Call)]
+                        types = set()
+                        for a_ in defs:
+                            types |= set(toksites.get((a_.value.lineno, a_.value.col_offset), ()))
+                        if not types:
+                            raise AnalysisError(f"{m}: cannot determine the token types of `{piece}`")
+                        plens = set()
+                        for t_ in types:
+                            plens |= _prefix_lengths(lm, t_)
+                        if isinstance(lo, ast.Constant) and isinstance(lo.value, int):
+                            okB = plens == {lo.value - 1}
+                            whyB = f"piece types {sorted(types)} have {sorted(plens)} characters before the opening quote; the slice drops {lo.value}"
+                        elif S.unparse(lo).replace("'\"'", "Q").replace('"\\""', "Q") in (f"{piece}.value.index(Q) + 1",) or norm(S.unparse(lo)) in (f"{piece}.value.index('\"') + 1", f'{piece}.value.index("\\"") + 1'):
+                            okB = True
+                            whyB = "drops everything up to and including the opening quote"
+                        else:
+                            whyB = f"slice start `{S.unparse(lo)}` is neither a constant nor the position after the opening quote"
+                    else:
+                        whyB = f"`{S.unparse(B)}` is not a suffix of the next piece's spelling"
+                ok = okA and okB
+                ctx.oblige("R-C02.4", f"{m}: {S.unparse(st)[:70]}", ok, sample={"rule": "R-C02.4", "method": m, "statement": S.unparse(st), "accumulated part": whyA, "following piece": whyB})
+                if not ok:
+                    ctx.violation("R-C02.4", f"concat:{m}", f"{m}: `{S.unparse(st)}` does not splice adjacent string literals exactly ({whyA}; {whyB}): the concatenated spelling loses or keeps characters it should not",
+                                  file=px.rel, function=f"CParser.{m}", line=st.lineno, construct=S.unparse(st))
+    if found < 2:
+        raise AnalysisError("string-literal concatenation statements not found in _parse_unified_(w)string_literal")
 
 
 def _loop_depth(n):
